@@ -6,6 +6,7 @@ import subprocess
 from vt.core import ROOT
 
 DEPS = os.path.join(ROOT, 'deps')
+DEPS_C06 = os.path.join(DEPS, 'c06')      # namespaces whose names are prefix-related to 'Test'
 TMP = os.path.join(ROOT, '.build', 'tmp')
 
 
@@ -30,7 +31,7 @@ def compile_gir(build, xml_text, wd, name='Test-1.0', includedirs=(), extra=()):
     except FileNotFoundError:
         pass
     cmd = [build.compiler]
-    for d in list(includedirs) + [DEPS]:
+    for d in list(includedirs) + [DEPS, DEPS_C06]:
         cmd += ['--includedir', d]
     cmd += list(extra) + [gir, '-o', out]
     p = subprocess.run(cmd, stdout=subprocess.PIPE, stderr=subprocess.PIPE, env=build.env(), cwd=wd)
@@ -53,7 +54,7 @@ def compile_file(build, gir_path, out_path, includedirs=()):
 def ensure_dep_typelibs(build):
     """Compile deps/*.gir into <builddir>/typelibs once per build; returns that directory."""
     d = os.path.join(build.dir, 'typelibs')
-    ok = os.path.join(d, 'OK')
+    ok = os.path.join(d, 'OK2')
     if os.path.exists(ok):
         return d
     os.makedirs(d, exist_ok=True)
@@ -62,9 +63,12 @@ def ensure_dep_typelibs(build):
         fcntl.flock(lk, fcntl.LOCK_EX)
         if os.path.exists(ok):
             return d
-        for n in ('GLib-2.0', 'GObject-2.0', 'Gio-2.0'):
+        girs = [os.path.join(DEPS, n + '.gir') for n in ('GLib-2.0', 'GObject-2.0', 'Gio-2.0')]
+        girs += sorted(os.path.join(DEPS_C06, f) for f in os.listdir(DEPS_C06) if f.endswith('.gir'))
+        for g in girs:
+            n = os.path.basename(g)[:-4]
             tmp = os.path.join(d, '%s.typelib.tmp%d' % (n, os.getpid()))
-            rc, err = compile_file(build, os.path.join(DEPS, n + '.gir'), tmp)
+            rc, err = compile_file(build, g, tmp)
             if rc != 0:
                 from vt.core import HarnessBroken
                 raise HarnessBroken('cannot compile dependency %s: %s' % (n, err))
